@@ -175,6 +175,23 @@ static void check_shape(const MatL& M, int cls, ld bound, vf::Case& c, bool exac
 }
 
 // UpperHessenbergQR (cls 0) and TridiagQR (cls 1)
+// state of the destination handed to matrix_QtHQ(dest): the documented contract is that dest is overwritten
+template <typename Mat>
+static void prefill_dest(vf::Draw& d, vf::Case& c, Mat& dest, Index n)
+{
+    typedef typename Mat::Scalar S;
+    int kind = (int) d.range("dest_state", 0, 3);
+    if (kind == 0)
+        return;
+    if (kind == 1)
+        dest = Mat::Constant(n, n, S(7));
+    else if (kind == 2)
+        dest = Mat::Constant(n + 1, n + 2, S(-3));
+    else
+        dest = Mat::Constant(n, n, std::numeric_limits<S>::quiet_NaN());
+    c.cls(kind == 2 ? "dest_prefilled_other_size" : "dest_prefilled_same_size");
+}
+
 template <typename S, typename QRClass>
 static void single_shift_case(vf::Draw& d, vf::Case& c, int cls, Index n, int pat)
 {
@@ -250,6 +267,18 @@ static void single_shift_case(vf::Draw& d, vf::Case& c, int cls, Index n, int pa
             threw = true;
         }
         VF_CHECK(threw, "not_computed", "matrix_QtHQ() before compute() did not throw logic_error");
+        if (d.flag("prior_compute"))
+        {
+            // the object has decomposed another matrix (same size, dense pattern, other shift) before: nothing of it may survive
+            Mat other = Mat::Zero(n, n);
+            for (Index j = 0; j < n; j++)
+                for (Index i = 0; i <= std::min<Index>(j + 1, n - 1); i++)
+                    other(i, j) = (S) ((ld) (((i * 5 + j * 3) % 7) - 3) * in.scale);
+            if (cls == 1)
+                other = ((other + other.transpose()) / S(2)).eval();
+            a.compute(other, (S) (in.scale / 2));
+            c.cls("object_reused_after_other_compute");
+        }
         a.compute(in.given, shift);
         qrp = &a;
     }
@@ -279,6 +308,7 @@ static void single_shift_case(vf::Draw& d, vf::Case& c, int cls, Index n, int pa
 
     // Q'HQ
     Mat Ts;
+    prefill_dest(d, c, Ts, n);
     qr.matrix_QtHQ(Ts);
     VF_CHECK(Ts.rows() == n && Ts.cols() == n, "dims", "matrix_QtHQ is " << Ts.rows() << "x" << Ts.cols());
     MatL T = vf::widen_real(Ts);
@@ -405,6 +435,7 @@ static void double_shift_case(vf::Draw& d, vf::Case& c, Index n, int pat)
     VF_CHECK(orth <= tol, "orthogonality", "max|Q'Q-I| = " << vf::num(orth) << " > " << vf::num(tol));
 
     Mat Ts;
+    prefill_dest(d, c, Ts, n);
     qr.matrix_QtHQ(Ts);
     VF_CHECK(Ts.rows() == n && Ts.cols() == n, "dims", "matrix_QtHQ is " << Ts.rows() << "x" << Ts.cols());
     MatL T = vf::widen_real(Ts);
